@@ -344,6 +344,10 @@ void harness(void) {
 	if (res == KSI_OK && g_cbl_len == 2 && g_live == 9 + 4) REACH("inserted under two processor nodes");
 	if (res == KSI_OK && g_cbl_len == 0) REACH("inserted without processors");
 	if (res != KSI_OK && g_cbl_calls == 2) REACH("failed after the first processor's node was joined");
+	/* (audit builderY, dfcc __invalid_ptr sharing) the replaced joinHashes is called once per processor node (loop unwound): twice on one path.
+	 * g_live does not tell (the replaced insertNode may add to it); the reference count of the processors' hash does: +1 per node made and kept */
+	if (res == KSI_OK && g_cbl_len == 2 && g_proc_hash.ref == 1002) REACH("two processor nodes joined (joinHashes succeeds twice on one path)");
+	if (res == KSI_OK && g_cbl_len == 2 && g_proc_hash.ref == 1001) REACH("one processor node joined");
 }
 #endif
 
